@@ -5,13 +5,32 @@ rows = []
 for d in sorted(glob.glob(os.path.join(HERE, 'seeded', '*'))):
     m = json.load(open(os.path.join(d, 'meta.json')))
     v = m.get('verified', {})
-    checks = []
+    by = {}
+    seeded_pids = {k.split('_')[1] for k in v if k.startswith('check_')
+                   and '_seed' in k}
     for k, val in sorted(v.items()):
         if k.startswith('check_'):
+            if k.split('_')[1] in seeded_pids and '_seed' not in k:
+                continue        # superseded by the multi-seed verification
             pid = k.split('_')[1]
             tag = re.search(r'tag=(\S+)', val)
             rc = re.search(r'rc=(\d)', val)
-            checks.append(f"{pid} {'**missed**' if rc and rc.group(1) != '1' else (tag.group(1) if tag else '?')}")
+            ent = by.setdefault(pid, {'n': 0, 'hit': 0, 'tags': []})
+            ent['n'] += 1
+            if rc and rc.group(1) == '1':
+                ent['hit'] += 1
+                if tag and tag.group(1) not in ent['tags']:
+                    ent['tags'].append(tag.group(1))
+    checks = []
+    for pid, ent in sorted(by.items()):
+        if ent['hit']:
+            checks.append(f"{pid} {ent['hit']}/{ent['n']} runs ({', '.join(ent['tags'][:2])})")
+        else:
+            checks.append(f"{pid} **missed** ({ent['n']} runs)")
+    if m.get('not_caught'):
+        checks.append(m['not_caught'])
+    if m.get('caught_by'):
+        checks.append('owning check for detection: ' + ','.join(m['caught_by']))
     summ = re.sub(r'\s+', ' ', m.get('summary', ''))[:150]
     needs = re.sub(r'\s+', ' ', m.get('needs_to_manifest', ''))[:150]
     rows.append(f"| {os.path.basename(d)} | {m.get('property')} | {summ} | {needs} | {'; '.join(checks)} |")
@@ -19,7 +38,7 @@ table = ("### 10.6 Independent seeded changes (written by sub-agents that saw on
          "Each was confirmed in a scratch copy: demo passes on the pristine tree, fails with the patch, the\n"
          "815 baseline tests still pass, and the owning quick check exits 1 (`tools/seeded.py verify`).\n"
          "Changes that were missed at first and what was strengthened are listed in §10.4.\n\n"
-         "| id | property | change | needs | caught by (quick check, tag) |\n|----|----------|--------|-------|------------------------------|\n"
+         "| id | property | change | needs | caught by (quick check: hits / runs at different VERIF_SEEDs, tags) |\n|----|----------|--------|-------|------------------------------|\n"
          + "\n".join(rows) + "\n")
 p = os.path.join(HERE, 'DESIGN.md')
 s = open(p).read()
